@@ -30,7 +30,7 @@ NSHARDS = {"quick": 16, "thorough": 16}
 OPS = ["consume-random", "consume-numpy", "consume-torch", "reseed-random", "reseed-numpy", "reseed-torch", "other-config",
        "generate-other", "from_config-other", "generate-other-parallel", "tokenize-shuffling", "call-generator", "same-config-again"]
 THRESHOLDS = {"quick": {**{f"c04:op:{o}": 10 for o in OPS}, "c04:configs": 40, "c04:histories": 200, "c04:hashseeds": 3,
-                        "c04:from_config": 40, "c04:from_config-with-filters": 15, "c04:cfg-unchanged-checked": 200,
+                        "c04:from_config": 40, "c04:configs>=1000-mazes": 2, "c04:configs-dedup-then-cut": 8, "c04:from_config-with-filters": 15, "c04:cfg-unchanged-checked": 200,
                         "c04:child-processes": 30, "c04:gen:gen_dfs": 1, "c04:gen:gen_wilson": 1, "c04:gen:gen_percolation": 1,
                         "c04:gen:gen_dfs_percolation": 1, "c04:gen:gen_prim": 1, "c04:trace:reseed-before-first-generator-entry": 100}}
 THRESHOLDS["thorough"] = {**THRESHOLDS["quick"], "c04:configs": 400, "c04:histories": 5000}
@@ -50,7 +50,12 @@ FILTER_SETS = [
     [dict(name="cut_percentile_shortest", args=[], kwargs=dict(percentile=25.0)), dict(name="truncate_count", args=[5], kwargs={})],
     [dict(name="remove_duplicates_fast", args=[], kwargs={})],
     [dict(name="path_length", args=[4], kwargs={}), dict(name="start_end_distance", args=[2], kwargs={}), dict(name="truncate_count", args=[3], kwargs={})],
+    # order matters: de-duplicate first, then cut (grid and count are chosen so that duplicates occur among the first mazes)
+    [dict(name="remove_duplicates_fast", args=[], kwargs={}), dict(name="truncate_count", args=[6], kwargs={})],
+    [dict(name="remove_duplicates_fast", args=[], kwargs={}), dict(name="truncate_count", args=[], kwargs=dict(max_count=8)), dict(name="path_length", args=[2], kwargs={})],
+    [dict(name="truncate_count", args=[9], kwargs={}), dict(name="remove_duplicates_fast", args=[], kwargs={})],
 ]
+DEDUP_SETS = (8, 9, 10)
 
 
 def make_specs(ctx, n):
@@ -68,8 +73,17 @@ def make_specs(ctx, n):
         elif r < 0.4:
             ek = dict(deadend_end=True, endpoints_not_equal=True)
         seed = [0, 42, 7, 2**31 - 1, int(rng.integers(0, 2**31 - 1))][i % 5]
-        specs.append(dict(key=f"cfg{i}", name=f"c04-{i}", gen=gen, kwargs=kw, grid_n=g, n_mazes=int(rng.integers(1, 9)), seed=seed,
-                          endpoint_kwargs=ek, filters=FILTER_SETS[i % len(FILTER_SETS)]))
+        fi = i % len(FILTER_SETS)
+        n_mazes = int(rng.integers(1, 9))
+        if fi in DEDUP_SETS:
+            gen, kw, g, n_mazes, ek = ["gen_dfs", "gen_wilson", "gen_dfs"][i % 3], [{}, {}, dict(do_forks=False)][i % 3], [2, 2, 3][i % 3], int(rng.integers(14, 24)), {}
+        specs.append(dict(key=f"cfg{i}", name=f"c04-{i}", gen=gen, kwargs=kw, grid_n=g, n_mazes=n_mazes, seed=seed,
+                          endpoint_kwargs=ek, filters=FILTER_SETS[fi]))
+    # large datasets (the sizes from which other code paths - compact serialization, progress bars, pools - kick in)
+    for t, (nm, gen, g) in enumerate([(1000, "gen_dfs", 2), (1200, "gen_dfs_percolation", 3)] if n <= 100 else
+                                     [(1000, "gen_dfs", 2), (1200, "gen_dfs_percolation", 3), (1000, "gen_wilson", 2), (2500, "gen_dfs", 2), (999, "gen_dfs", 3), (1001, "gen_percolation", 2)]):
+        specs.append(dict(key=f"big{t}", name=f"c04-big{t}", gen=gen, kwargs=(dict(p=0.3) if "perc" in gen else {}), grid_n=g, n_mazes=nm, seed=11 + t,
+                          endpoint_kwargs={}, filters=[]))
     return specs
 
 
@@ -190,6 +204,10 @@ def run(ctx):
     # (b) in-process histories
     for spec in specs:
         ctx.tally("c04:configs"); ctx.tally(f"c04:gen:{spec['gen']}")
+        if spec["n_mazes"] >= 1000:
+            ctx.tally("c04:configs>=1000-mazes")
+        if spec["filters"] and any(f["name"] == "remove_duplicates_fast" for f in spec["filters"]) and len(spec["filters"]) > 1:
+            ctx.tally("c04:configs-dedup-then-cut")
         entry_fps = set()
         for h in range(K):
             rng = ctx.sub_rng("hist", spec["key"], h)
